@@ -144,6 +144,8 @@ func asyncLongSweep(c *Ctx, thr int, infinite bool, compress bool, length, idx i
 			}
 			return true
 		}
+		clock := 0
+		acceptedAt := map[string]int{} // uuid -> clock at which its current version was accepted
 		for i, op := range ops {
 			switch names[op] {
 			case "ins":
@@ -154,6 +156,7 @@ func asyncLongSweep(c *Ctx, thr int, infinite bool, compress bool, length, idx i
 					return
 				}
 				model[o.UUID()] = o
+				acceptedAt[o.UUID()] = clock
 				order = append(order, o.UUID())
 			case "upd":
 				if len(order) == 0 {
@@ -168,6 +171,7 @@ func asyncLongSweep(c *Ctx, thr int, infinite bool, compress bool, length, idx i
 					return
 				}
 				model[u] = o
+				acceptedAt[u] = clock
 				order = append(order[1:], u)
 			case "del":
 				if len(order) == 0 {
@@ -185,6 +189,19 @@ func asyncLongSweep(c *Ctx, thr int, infinite bool, compress bool, length, idx i
 				order = order[1:]
 			case "tick":
 				vrt.Tick(1)
+				clock++
+				if !infinite {
+					// the writer flushes everything once per timeout period: a version accepted
+					// more than a period (and two polling steps) ago is on disk, whatever was
+					// written since
+					fs, _ := files()
+					for u, m := range model {
+						if clock-acceptedAt[u] >= int(timeout/step)+2 && fs[u] != valOf(m) {
+							fail("timeout-missed-midway", fmt.Sprintf("after call %d: a version accepted %d clock steps ago (timeout %v) is still not on disk while other calls keep coming", i+1, clock-acceptedAt[u], timeout))
+							return
+						}
+					}
+				}
 			}
 			if !visible(fmt.Sprintf("after call %d (%s)", i+1, names[op])) {
 				return
